@@ -27,11 +27,28 @@ type crashOracle struct {
 	blockCp   map[int]int64
 	blockSeen int
 	countE    []int // countE[i] = number of expected entries with Src <= i
+	// source items of excluded databases (output.filter.dbBlacklist) that every other filter would let through: what a
+	// restart inside such a section executes, because the exclusion is parser state set by the SELECT in front of it
+	exclOnlyByDB map[int]Expected
 }
 
 func newCrashOracle(ps *PipeSim) *crashOracle {
 	o := &crashOracle{ps: ps, lastCp: -1 << 62, blockIdx: map[int][]int{}, blockCp: map[int]int64{}}
 	o.expected = Reference(ps.st, 0, ps.cfg.DBM, ps.cfg.Filters)
+	if f := ps.cfg.Filters; f != nil && len(f.DbBlacklist) > 0 {
+		g := *f
+		g.DbBlacklist = nil
+		black := map[int]bool{}
+		for _, d := range f.DbBlacklist {
+			black[d] = true
+		}
+		o.exclOnlyByDB = map[int]Expected{}
+		for _, e := range Reference(ps.st, 0, ps.cfg.DBM, &g) {
+			if black[ps.st.Items[e.Src].SrcDB] {
+				o.exclOnlyByDB[e.Src] = e
+			}
+		}
+	}
 	o.countE = make([]int, len(ps.st.Items))
 	k := 0
 	for i := range ps.st.Items {
@@ -195,6 +212,14 @@ func (o *crashOracle) stateInvariant() {
 		e := o.expected[o.maxP]
 		ps.setViolation("C02.covers_write", "stored position covers a write the target has not executed", "stored position %d (end of source item %d) covers expected command #%d [%s] which the target has not executed", off, idx, o.maxP, fmtCmd(e.Name, e.Args))
 	}
+	if idx >= 0 && o.exclOnlyByDB != nil {
+		for j := idx + 1; j < len(ps.st.Items) && ps.st.Items[j].Kind != KSelect; j++ {
+			if e, bad := o.exclOnlyByDB[j]; bad {
+				ps.setViolation("C02.covers_select", "stored position lies inside a section of an excluded database", "stored position %d (end of source item %d [%s]) lies behind the SELECT of source database %d, which output.filter.dbBlacklist excludes: a restart here no longer knows the exclusion and executes [%s] (source item %d)", off, idx, fmtCmd(ps.st.Items[idx].Name, ps.st.Items[idx].Args), ps.st.Items[idx].SrcDB, fmtCmd(e.Name, e.Args), j)
+				break
+			}
+		}
+	}
 	if idx >= 0 {
 		it := ps.st.Items[idx]
 		want := ps.cfg.DBM.Map(it.SrcDB)
@@ -307,6 +332,11 @@ var crashSoftRestarts = os.Getenv("SIM_CRASH_SOFT") != "0"
 func runCrashSim(r *Run, prop string, cfg PipeCfg, st *Stream, maxCrashes int, crashAt int) (*PipeSim, *crashOracle) {
 	ps := NewPipeSim(r, prop, cfg, st)
 	o := newCrashOracle(ps)
+	if os.Getenv("SIM_DEBUG_ITEMS") == "1" {
+		for i, it := range st.Items {
+			r.Logf("item %d end=%d txn=%d kind=%d db=%d %s", i, it.End, it.Txn, it.Kind, it.SrcDB, fmtCmd(it.Name, it.Args))
+		}
+	}
 	crashes := 0
 	ps.startIncarnation()
 	forced := false
@@ -359,6 +389,18 @@ func runCrashSim(r *Run, prop string, cfg PipeCfg, st *Stream, maxCrashes int, c
 				acts = append(acts, pipeAction{"conn-loss", w, func() {
 					crashes++
 					ps.connLoss(r.Sched())
+					o.observe()
+					ps.startIncarnation()
+				}})
+			}
+			if crashSoftRestarts {
+				ws := w
+				if last := ps.lastWholeItem(in.fedTo); ph == 1 && last >= 0 && ps.st.Items[last].Txn != 0 && ps.st.Items[last].Kind != KExec && ps.st.Items[last].Kind != KMulti {
+					ws = 30 // the sender sits between MULTI and EXEC of a source transaction: the stop that matters
+				}
+				acts = append(acts, pipeAction{"stop", ws, func() {
+					crashes++
+					ps.gracefulStop(r.Sched())
 					o.observe()
 					ps.startIncarnation()
 				}})
@@ -429,7 +471,81 @@ func (ps *PipeSim) connLoss(c *simrt.Chooser) {
 	}
 	ps.r.Net.DialFault = nil
 	ps.absorb()
-	ps.reuse = in.ro
+	in.mu.Lock()
+	pathDone := in.pathDone
+	in.mu.Unlock()
+	if pathDone {
+		ps.reuse = in.ro
+	} else {
+		// the connection was lost before syncer.newOutput had finished: no output object exists yet, the syncer's
+		// restart runs the whole start path again
+		ps.r.Logf("  start path not completed: the next incarnation starts from scratch")
+	}
+}
+
+// gracefulStop ends the current incarnation the orderly way: the run scope is cancelled (SIGTERM, leader hand-over, the
+// input side failing) while the target stays reachable and answers everything the tool still sends. What the sender
+// flushes on its way out is executed in full; the next incarnation is a new process or the same output object.
+func (ps *PipeSim) gracefulStop(c *simrt.Chooser) {
+	in := ps.inc
+	ps.r.W.Fault("graceful_stop")
+	ps.r.Logf("GRACEFUL STOP of incarnation %d", in.id)
+	if last := ps.lastWholeItem(in.fedTo); last >= 0 && ps.st.Items[last].Txn != 0 && ps.st.Items[last].Kind != KExec && ps.st.Items[last].Kind != KMulti {
+		simrt.Probe("stop_inside_open_source_txn")
+	}
+	in.cancel()
+	closeAt := c.Choose("stop_reader_close", 3) * 20
+	for i := 0; i < 600 && in.getPhase() != 2; i++ {
+		ps.r.Settle()
+		for _, ss := range ps.srv.Ready() {
+			if ss.Conn.Tag == in.id {
+				ps.srv.Step(ss)
+			}
+		}
+		if i == closeAt {
+			in.mu.Lock()
+			rd := in.reader
+			in.mu.Unlock()
+			if rd != nil {
+				rd.pipe.CloseWith(errors.New("run scope closed"))
+			}
+		}
+		ps.r.Advance(10 * time.Millisecond)
+	}
+	ps.r.Settle()
+	if in.getPhase() != 2 {
+		Inconc("incarnation %d did not end after a graceful stop", in.id)
+	}
+	for drained := false; !drained; {
+		drained = true
+		for _, ss := range ps.srv.Ready() {
+			if ss.Conn.Tag == in.id {
+				ps.srv.Step(ss)
+				drained = false
+			}
+		}
+		ps.r.Settle()
+	}
+	ps.killAll(in.id)
+	ps.r.Settle()
+	ps.absorb()
+	in.mu.Lock()
+	pathDone := in.pathDone
+	in.mu.Unlock()
+	if pathDone && c.Choose("stop_same_process", 2) == 0 {
+		ps.reuse = in.ro
+	}
+}
+
+// lastWholeItem: index of the last source item that lies completely below off (-1: none).
+func (ps *PipeSim) lastWholeItem(off int64) int {
+	last := -1
+	for i, it := range ps.st.Items {
+		if it.End <= off {
+			last = i
+		}
+	}
+	return last
 }
 
 func (ps *PipeSim) killAll(tag int) {
@@ -441,7 +557,7 @@ func (ps *PipeSim) killAll(tag int) {
 }
 
 func init() {
-	Register(&PropertyDef{ID: "C02", Strata: []string{"txn", "nontxn", "txn-enum", "nontxn-enum", "txn-select", "txn-txnheavy", "txn-txnheavy-innersel"}, Run: func(r *Run, s string) *Violation { return runCrashProp(r, "C02", s) }, StepCap: 30000})
+	Register(&PropertyDef{ID: "C02", Strata: []string{"txn", "nontxn", "txn-enum", "nontxn-enum", "txn-select", "txn-txnheavy", "txn-txnheavy-innersel", "txn-filters", "nontxn-filters"}, Run: func(r *Run, s string) *Violation { return runCrashProp(r, "C02", s) }, StepCap: 30000})
 	Register(&PropertyDef{ID: "C07", Strata: []string{"txn-idle", "nontxn-idle", "txn", "nontxn", "txn-enum", "nontxn-enum", "runid-switch"}, Run: func(r *Run, s string) *Violation {
 		if s == "runid-switch" {
 			return runC07Switch(r, s)
@@ -485,6 +601,10 @@ func runCrashProp(r *Run, prop, stratum string) *Violation {
 	if r.Tier == "thorough" {
 		max = 150
 	}
+	if prop == "C02" && g.Choose("startpath", 2) == 0 {
+		cfg.StartPath = true
+		cfg.AfterFullSync = g.Choose("afterfullsync", 2) == 0
+	}
 	o := StreamOpts{MaxItems: max, StartDB: -1}
 	if hasWord(stratum, "txnheavy") {
 		o.TxnHeavy = true
@@ -494,6 +614,15 @@ func runCrashProp(r *Run, prop, stratum string) *Violation {
 	}
 	if hasWord(stratum, "innersel") {
 		o.TxnInnerSelect = true
+	}
+	if hasWord(stratum, "filters") {
+		// output filters (command / database / key prefix / slot lists): what is filtered out leaves no trace on the
+		// target, so a resume position inside a filtered section must still restore the parser's state
+		cfg.Filters = GenFilterSpec(g)
+		if len(cfg.Filters.DbBlacklist) == 0 {
+			cfg.Filters.DbBlacklist = []int{g.Choose("dbblack1", 4)}
+		}
+		o.Filters, o.NumDBs, o.SelectHeavy = cfg.Filters, 4, true
 	}
 	if hasWord(stratum, "idle") {
 		// idle-heavy: long tickers are pointless, short ones fire before the first item
